@@ -4,6 +4,7 @@ import (
 	"fmt"
 	"reflect"
 	"regexp"
+	"runtime/metrics"
 	"strings"
 	"unsafe"
 
@@ -68,6 +69,34 @@ func packetInMarked(pktKind string, xid uint32, r *simrt.RNG, size int) ([]byte,
 
 // ---------------------------------------------------------------- budgets (C07/C08)
 
+// heapAllocated returns the cumulative number of bytes the process has allocated.
+var allocSample = []metrics.Sample{{Name: "/gc/heap/allocs:bytes"}}
+
+func heapAllocated() uint64 {
+	metrics.Read(allocSample)
+	if allocSample[0].Value.Kind() == metrics.KindUint64 {
+		return allocSample[0].Value.Uint64()
+	}
+	return 0
+}
+
+// realAllocBound: what one decoder call may really allocate (everything, including what the
+// standard library allocates on its behalf - formatting an error, growing a buffer). Far above
+// anything a linear decoder does (measured maxima are reported in the evidence), far below a
+// quadratic or cubic blow-up on inputs of some KiB.
+func realAllocBound(n int) uint64 { return 8<<20 + 512*uint64(n) }
+
+func (w *world) checkRealAlloc(before uint64, stepsBefore int, what string, n int) {
+	if w.sim.Steps != stepsBefore {
+		return // other tasks ran in between: the delta is not this call's
+	}
+	d := heapAllocated() - before
+	w.maxima.Obs("max_real_alloc_bytes_per_input_byte", float64(d)/float64(n+64))
+	if d > realAllocBound(n) {
+		w.violate("totality", "memory-not-proportional-to-input", "measured-heap-allocation", fmt.Sprintf("%s allocated %d bytes on the heap for a %d-byte input (bound %d)", what, d, n, realAllocBound(n)))
+	}
+}
+
 func parseBudget(n int) *simrt.Budget {
 	return &simrt.Budget{MaxTicks: 4096 + 32*int64(n), MaxAlloc: 1<<20 + 64*int64(n)}
 }
@@ -85,9 +114,13 @@ func totalityProp(p string) bool { return p == "C07" || p == "C08" }
 func budgetedParse(w *world, b []byte, fs *frameState) (util.Message, error) {
 	bud := parseBudget(len(b))
 	w.budgets = append(w.budgets, budgetRec{b: bud, fs: fs, what: "parser goroutine: openflow13.Parse", n: len(b)})
+	a0, s0 := heapAllocated(), w.sim.Steps
 	simrt.Arm(bud)
 	m, err := openflow13.Parse(b) // a panic or budget overrun ends this parser task, as it would the process / the goroutine
 	simrt.Disarm()
+	if totalityProp(w.sc.Property) {
+		w.checkRealAlloc(a0, s0, "parser goroutine: openflow13.Parse", len(b))
+	}
 	w.maxima.Obs("max_ticks_per_byte_stream_leg", float64(bud.Ticks)/float64(len(b)+1))
 	if len(b) > 8 {
 		w.decoderPastHeader = true
@@ -156,7 +189,9 @@ func (w *world) guarded(what string, n int, f func()) (ok bool) {
 		}
 		w.maxima.Obs("max_ticks_per_byte_direct", float64(bud.Ticks)/float64(n+1))
 	}()
+	a0, s0 := heapAllocated(), w.sim.Steps
 	f()
+	w.checkRealAlloc(a0, s0, what, n)
 	return true
 }
 
@@ -510,6 +545,9 @@ func genTotality(prop string, seed uint64, kinds []string, target string, bareIn
 		if r.Chance(0.3) {
 			sc.Consumer.ThinkMax = []int{1, 3, 10}[r.Intn(3)]
 		}
+		// half of the stream legs interleave the 25 parser goroutines INSIDE the decoders (at
+		// every access to package-level state): frames are decoded concurrently in production
+		sc.SharedCodec = r.Chance(0.5)
 	case 1: // direct leg, sampled: damaged frames with inconsistent lengths, short inputs
 		sc.Target = target
 		n := r.Range(8, 64)
